@@ -665,9 +665,13 @@ def run_unit(cdef, config=None, callee_contracts=None):
     reasons = []
     first_inputs = None
     try:
+        unit_deadline = time.time() + float(os.environ.get('PYVC_UNIT_BUDGET_S', '700'))
         while I.br.has_work():
             if I.br.paths_done >= I.br.max_paths:
                 reasons.append('path limit %d reached' % I.br.max_paths)
+                break
+            if time.time() > unit_deadline:
+                reasons.append('unit time budget exhausted during exploration (%d paths done)' % I.br.paths_done)
                 break
             I.br.start_path()
             I.br.paths_done += 1
@@ -714,6 +718,9 @@ def run_unit(cdef, config=None, callee_contracts=None):
             # the unit is undecided already: do not burn the budget on the rest
             rec = ObRecord(ob)
             rec.status, rec.detail = 'unknown', 'skipped after earlier unknowns'
+        elif time.time() > unit_deadline + 200:
+            rec = ObRecord(ob)
+            rec.status, rec.detail = 'unknown', 'unit time budget exhausted'
         else:
             rec = discharge(ob)
         if rec.status == 'unknown':
